@@ -834,7 +834,15 @@ class World(object):
         h = self.sigreg.handlers.get(int(signum))
         self.sim.rec('daemon_signal', int(signum))
         if callable(h):
-            h(int(signum), None)
+            # delivered while the loop sleeps in its poll (nothing runnable,
+            # not inside a step)? then only a thread-safe wake-up gets the
+            # loop going before its next timer
+            lp = self.loop
+            lp.asleep_signal = (not self.sim.in_step and not lp._ready)
+            try:
+                h(int(signum), None)
+            finally:
+                lp.asleep_signal = False
             return True
         return False
 
